@@ -871,6 +871,11 @@ class Interp:
         if getattr(cls, 'native_new', None):
             return cls.native_new(self, cls, args, kwargs)
         inst = Inst(cls, {})
+        for c in cls.mro:
+            for k, v in c.ns.items():
+                f = v.fget if isinstance(v, PropertyVal) else v
+                if isinstance(f, FunctionVal) and f.is_abstract and cls.lookup(k) is v:
+                    raise_py('TypeError', f"Can't instantiate abstract class {cls.name} with abstract method {k}")
         if ops.is_dataclass(cls) and not cls_defines(cls, '__init__'):
             fields = ops.dataclass_fields(cls)
             init_fields = [f for f in fields if f['init']]
